@@ -34,6 +34,22 @@ fn decode_find(src: &mut Source, which: Which) -> Box<dyn Case> {
         o.max_recs = 6;
     }
     let mut w = gen_world(src, o);
+    if which == Which::C03 && src.chance(1, 40) {
+        // a large one-brand catalogue: 65-140 records over a tiny vocabulary, limit >= |store|
+        let plain = plain_letters(w.lang);
+        let k = src.range(3, 6);
+        let nv = src.range(2, 5);
+        let vocab: Vec<String> = (0..nv).map(|_| (0..src.range(2, 6)).map(|_| plain[src.below(k)]).collect()).collect();
+        let brand = src.pick(&vocab).clone();
+        let n = src.range(65, 140);
+        w.recs = (0..n)
+            .map(|i| {
+                let t = format!("{} {}", if src.chance(4, 5) { brand.clone() } else { src.pick(&vocab).clone() }, src.pick(&vocab));
+                (i + 1, t, src.below(100))
+            })
+            .collect();
+        w.limit = n + src.below(3);
+    }
     if which == Which::C04 {
         // lengths 5-7 sit closest to the 0.21 threshold: add words of exactly those lengths
         let extra = src.range(1, 3);
@@ -118,7 +134,7 @@ impl FindCase {
                         // precondition: what is typed normalises to a prefix of the word
                         let tq = tokenize_query(q, l);
                         let typed: &[char] = if tq.words.len() == 1 { &tq.chars[tq.words[0].slice.0..tq.words[0].slice.1] } else { &[] };
-                        if typed.len() < p || typed.len() > p + 1 || !wchars.starts_with(typed) {
+                        if (typed.len() < p || typed.len() > p + 1 || !wchars.starts_with(typed)) && retyping_may_differ(&[&wchars[..p]], q) {
                             ctx.count("skipped_not_a_normalised_prefix", 1);
                             continue;
                         }
@@ -134,6 +150,7 @@ impl FindCase {
                         ctx.label_if(p > wd.stem && p < wchars.len(), "prefix-beyond-stem");
                         ctx.label_if(wd.is_function(), "function-word");
                         ctx.label_if(vi == 1, "original-spelling");
+                        ctx.label_if(w.recs.len() > 64, "store>64");
                     }
                 }
             }
@@ -192,11 +209,20 @@ impl FindCase {
                         edits.push(("insertion", i, e));
                     }
                 }
-                for (kind, pos, e) in edits {
+                for (pi, (kind, pos, e)) in edits.into_iter().enumerate() {
                     let q: String = e.iter().collect();
-                    if !types_as(&q, l, &[&e[..]]) {
+                    if !types_as(&q, l, &[&e[..]]) && retyping_may_differ(&[&e[..]], &q) {
                         ctx.count("skipped_not_stable", 1);
                         continue;
+                    }
+                    // the edited word "alone" is still typed letter by letter in a suggest box:
+                    // for one probe in eight every proper prefix is searched first
+                    if pi % 8 == (self.picks[1] as usize) % 8 {
+                        for k in 1..e.len() {
+                            let pq: String = e[..k].iter().collect();
+                            let _ = search(store, &pq);
+                        }
+                        ctx.count("typed_letter_by_letter", 1);
                     }
                     ctx.count("probes", 1);
                     if !found(store, &q, id) {
@@ -258,7 +284,7 @@ impl FindCase {
                     if vi == 1 && *q == spellings[0] {
                         continue;
                     }
-                    if !types_as(q, l, &[wa, wb]) {
+                    if !types_as(q, l, &[wa, wb]) && retyping_may_differ(&[wa, wb], q) {
                         ctx.count("skipped_not_stable", 1);
                         continue;
                     }
@@ -284,7 +310,7 @@ impl FindCase {
                 }
                 for k in 1..wc.len() {
                     let q = format!("{} {}", wc[..k].iter().collect::<String>(), wc[k..].iter().collect::<String>());
-                    if !types_as(&q, l, &[&wc[..k], &wc[k..]]) {
+                    if !types_as(&q, l, &[&wc[..k], &wc[k..]]) && retyping_may_differ(&[&wc[..k], &wc[k..]], &q) {
                         ctx.count("skipped_not_stable", 1);
                         continue;
                     }
